@@ -9,6 +9,7 @@ import (
 	"errors"
 	"fmt"
 	"net"
+	"runtime"
 	"sync"
 	"time"
 )
@@ -103,6 +104,9 @@ func (c *ClientConn) Write(p []byte) (int, error) {
 	if limit > 0 {
 		n, err = c.Conn.Write(p[:limit])
 	}
+	if err != nil && DebugWriteErr != nil {
+		DebugWriteErr(n, len(p), err)
+	}
 	c.mu.Lock()
 	c.written += int64(n)
 	c.Wire = append(c.Wire, p[:n]...)
@@ -126,7 +130,17 @@ func (c *ClientConn) Write(p []byte) (int, error) {
 	return n, err
 }
 
+// DebugWriteErr, if set, is called for every failing Write.
+var DebugWriteErr func(n, l int, err error)
+
+// DebugClose, if set, is called with a stack trace on the first Close of every client conn.
+var DebugClose func(stack string)
+
 func (c *ClientConn) Close() error {
+	if DebugClose != nil {
+		buf := make([]byte, 8192)
+		DebugClose(string(buf[:runtime.Stack(buf, false)]))
+	}
 	c.mu.Lock()
 	if !c.closed {
 		c.closed = true
